@@ -19,13 +19,22 @@ def plan(tier, seed):
     # the non-linear max/ratio reasoning did not finish on denser 2x2 patterns)
     for t in (0, 1, 2):
         qs.append(rfs_query('C13', 1, 1, t, maxcorr=1, group=2))
+        q = rfs_query('C13', 1, 1, t, maxcorr=5, group=2, timeout=900)   # the whole refinement loop: up to ITMAX = 5 corrections
+        q.witness_defs = {'WIT_NSOLVE': 5}
+        qs.append(q)
+        # the same loop entered through a pinned prefix (a = b = 1, x0 = 0, corrections 1/2, 1/4, ...): the last 5 - k corrections arbitrary
+        for k in (4, 3):
+            q = rfs_query('C13', 1, 1, t, maxcorr=5, group=2, timeout=900)
+            q.name += '.pin%d' % k; q.defs['PINPREFIX'] = k
+            q.witness_defs = {'WIT_NSOLVE': 5}
+            qs.append(q)
         qs += [rfs_query('C13', 2, p, t, maxcorr=1, group=2) for p in ([0x9, 0x6] if tier != 'thorough' else [0x9, 0x6, 0x7, 0xe, 0xb, 0xd, 0xf])]
     return qs
 
 META = {
     'level': 'model_checking',
     'engines': 'E2 (Real): real dgsrfs + real sp_dgemv; dgstrs returns ARBITRARY corrections, dlacon_ ends at once',
-    'bounds': {'matrices': 'residual sense: n<=2 (quick: 5 patterns, thorough: all 15); truthfulness of berr: 1x1 only (denser cases did not finish within the cap); all real values of A, B and the starting X', 'trans': 'N, T, C', 'corrections': 'arbitrary values; paths with at most 1 correction step are followed (longer refinement runs are outside the bound)'},
+    'bounds': {'matrices': 'residual sense: n<=2 (quick: 5 patterns, thorough: all 15); truthfulness of berr: 1x1 only (denser cases did not finish within the cap); all real values of A, B and the starting X', 'trans': 'N, T, C', 'corrections': 'arbitrary values; 1x1: the whole loop (up to ITMAX = 5 corrections, a 5-correction run is the witness); 2x2: paths with at most 1 correction step (quick) are followed'},
     'outside': ['berr = O((n+1) eps) for well-conditioned matrices and "ferr dominates the true error": statements about rounding and about the Hager/Higham estimator, vacuous in exact arithmetic and NOT decided',
                 'the scaling by R / C inside the ferr loop (equed != NOEQUIL)', 'n > 2'],
     'assumptions': ['ordered-field reinterpretation of double; machine constants exact'],
